@@ -64,3 +64,15 @@ func (c *Ctx) remoteHaltFamily(prefix string) {
 	c.Before(prefix+"/acquire-store-before-wait", aq, p.PlainCalls("litefs.(*DB).WaitPosExact"), store, 1, "the reference is stored before waiting", "processLTXStreamFrame clears a stale reference when a frame arrives; the order is what makes that race benign")
 	_ = strings.TrimSpace
 }
+
+// primaryOnlyHandlers: the halt and forwarded-commit handlers do their work only
+// on a node that is primary at the time of the request (shared by C07, C08, C13).
+func (c *Ctx) primaryOnlyHandlers(prefix string) {
+	p := c.P
+	isPrimary := GP("litefs.(*Store).IsPrimary(p0.store)", true)
+	c.Guarded(prefix+"/handlePostHalt", "http.(*Server).handlePostHalt", p.PlainCalls("litefs.(*Store).CreateDBIfNotExists", "litefs.(*DB).AcquireHaltLock"), gs(isPrimary), 2,
+		"POST /halt creates the database and grants the halt lock only when Store.IsPrimary() answered true", "a node without a lease that grants a halt lock lets a replica write against a node that is not the primary")
+	c.Guarded(prefix+"/handlePostTx", "http.(*Server).handlePostTx", p.PlainCalls("litefs.(*DB).PinHaltLock", "litefs.(*DB).WriteLTXFileAt", "litefs.(*DB).ApplyLTXNoLock"), gs(isPrimary), 3,
+		"POST /tx pins, copies and applies a forwarded transaction only when Store.IsPrimary() answered true", "a node without a lease that applies and acknowledges a forwarded transaction moves its position outside the primary's stream; the sender believes the transaction is committed")
+	c.Expect(prefix+"/is-primary-def", strings.Join(c.returnsOf("litefs.(*Store).IsPrimary"), ";"), pat("litefs.(*Store).isPrimary(p0)"), "IsPrimary() is the locked read of isPrimary()", "")
+}
